@@ -5,6 +5,7 @@ use std::panic::AssertUnwindSafe;
 
 use wf_harness::{catch, hex_bytes, jstr, prng::Rng, refmath::*, silence_panics, watchdog::{self, Progress}};
 use winter_math::{fields::f128, fields::f62, fields::f64, FieldElement, StarkField};
+use winter_crypto::{hashers::Blake3_256, ElementHasher};
 use winter_utils::{AsBytes, Deserializable, Serializable};
 
 const M64: u64 = 0xFFFF_FFFF_0000_0001;
@@ -215,6 +216,147 @@ fn corr_f128(r: &mut Rng, n: usize, out: &mut Vec<String>) {
     }
 }
 
+// ---------------------------------------------------------------- coverage round: conversions, assignments, raw byte views
+fn optx<T: std::fmt::LowerHex, E>(r: Result<T, E>) -> String {
+    match r { Ok(v) => format!("{:x}", v), Err(_) => "none".into() }
+}
+fn words<T: std::fmt::LowerHex>(ws: &[T]) -> String {
+    if ws.is_empty() { "-".into() } else { ws.iter().map(|w| format!("{:x}", w)).collect::<Vec<_>>().join(",") }
+}
+/// bytes for TryFrom<&[u8]>: every length around ELEMENT_BYTES (both error branches), values around the modulus
+fn gen_slice(r: &mut Rng, nb: usize, around: u128) -> Vec<u8> {
+    let len = match r.below(8) { 0 => nb - 1, 1 => nb + 1, 2 => 0, 3 => nb + 2 + r.below(20) as usize, 4 => r.below(nb as u64) as usize, _ => nb };
+    let v = match r.below(5) { 0 => around, 1 => around - 1, 2 => around + 1 + r.below(3) as u128, 3 => u128::MAX, _ => r.next_u128() >> r.below(100) };
+    let mut b = v.to_le_bytes().to_vec();
+    b.resize(len.max(16), r.next_u64() as u8);
+    b.truncate(len);
+    b
+}
+/// `bytes_as_elements` on a slice that starts `off` bytes into a buffer aligned for the word type
+fn bae<W: Copy + Default, F, T: std::fmt::LowerHex>(off: usize, bytes: &[u8], raw: impl Fn(&F) -> T, call: impl Fn(&[u8]) -> Option<Vec<F>>) -> String {
+    let wsz = core::mem::size_of::<W>();
+    let backing: Vec<W> = vec![W::default(); (off + bytes.len()) / wsz + 2];
+    let view = unsafe { core::slice::from_raw_parts_mut(backing.as_ptr() as *mut u8, backing.len() * wsz) };
+    view[off..off + bytes.len()].copy_from_slice(bytes);
+    match call(&view[off..off + bytes.len()]) {
+        Some(es) => words(&es.iter().map(|e| raw(e)).collect::<Vec<_>>()),
+        None => "none".into(),
+    }
+}
+fn gen_bae(r: &mut Rng, nb: usize) -> (usize, Vec<u8>) {
+    // aligned and every misalignment; whole numbers of elements and ragged lengths; words may be non-canonical
+    let off = match r.below(8) { 0..=3 => 0, 4 => nb / 2, 5 => [1, nb - 1, nb, nb + nb / 2][r.below(4) as usize], _ => r.below(2 * nb as u64) as usize };
+    let k = r.below(4) as usize;
+    let len = if r.chance(3, 4) { k * nb } else { k * nb + match r.below(4) { 0 => nb / 2, 1 => 1, 2 => nb - 1, _ => 1 + r.below(nb as u64 - 1) as usize } };
+    let mut v: Vec<u8> = (0..len).map(|_| r.next_u64() as u8).collect();
+    if r.chance(1, 4) { v.iter_mut().for_each(|b| *b = 0xff) }
+    (off, v)
+}
+
+fn corr_conv(r: &mut Rng, n: usize, out: &mut Vec<String>) {
+    let b64 = boundary64(M64);
+    let b62 = boundary64(M62);
+    let ops64 = ["from_bool", "from_u8", "from_u16", "from_u32", "try_from_usize", "to_bool", "to_u8", "to_u16", "to_u32", "to_u64", "to_u128",
+        "sf_as_int", "conjugate", "add_assign", "sub_assign", "mul_assign", "div_assign", "base_element", "try_from_slice", "as_bytes", "eab", "bae"];
+    let ops62 = ["from_u8", "from_u16", "from_u32", "to_u64", "to_u128", "try_from_bytes", "conjugate", "add_assign", "sub_assign", "mul_assign",
+        "div_assign", "base_element", "try_from_slice", "as_bytes", "eab", "bae"];
+    let ops128 = ["from_u8", "from_u16", "from_u32", "from_u64", "conjugate", "add_assign", "sub_assign", "mul_assign", "div_assign", "base_element",
+        "try_from_slice", "as_bytes", "eab", "bae"];
+    let small = |r: &mut Rng, bits: u32| -> u64 {
+        let m = if bits == 64 { u64::MAX } else { (1u64 << bits) - 1 };
+        match r.below(6) { 0 => 0, 1 => 1, 2 => m, 3 => m - 1, 4 => m / 2 + 1, _ => r.next_u64() & m }
+    };
+    for i in 0..n {
+        // ---- f64 (canonical Montgomery words; values that fit / do not fit the narrow integer types)
+        let op = ops64[i % ops64.len()];
+        let narrow = op.starts_with("to_");
+        let w = |r: &mut Rng| match if narrow { [0, 0, 0, 1, 2, 3][r.below(6) as usize] } else { 1 + r.below(3) } {
+            0 => { let bits = [1, 8, 16, 32][r.below(4) as usize]; let v = small(r, bits); let d = r.below(2); f64::BaseElement::new(v + d).inner() }
+            1 => { let v = r.next_u64(); let k = r.below(64); f64::BaseElement::new(v >> k).inner() }
+            _ => { let x = gen_u64(r, &b64); if x >= M64 { x - M64 } else { x } }
+        };
+        let (a, c) = (w(r), w(r));
+        let line = match op {
+            "from_bool" => { let v = r.chance(1, 2); format!("f64.from_bool {:x} => {:x}", v as u8, f64::BaseElement::from(v).inner()) }
+            "from_u8" => { let v = small(r, 8) as u8; format!("f64.from_u8 {:x} => {:x}", v, f64::BaseElement::from(v).inner()) }
+            "from_u16" => { let v = small(r, 16) as u16; format!("f64.from_u16 {:x} => {:x}", v, f64::BaseElement::from(v).inner()) }
+            "from_u32" => { let v = small(r, 32) as u32; format!("f64.from_u32 {:x} => {:x}", v, f64::BaseElement::from(v).inner()) }
+            "try_from_usize" => { let v = match r.below(3) { 0 => (M64 + [0, 1, 2, u64::MAX - M64][r.below(4) as usize]) as usize, 1 => (M64 - 1 - r.below(3)) as usize, _ => gen_u64(r, &b64) as usize }; format!("f64.try_from_usize {:x} => {}", v, optx(f64::BaseElement::try_from(v).map(|e| e.inner()))) }
+            "to_bool" => format!("f64.to_bool {:x} => {}", a, optx(bool::try_from(f64w(a)).map(|v| v as u8))),
+            "to_u8" => format!("f64.to_u8 {:x} => {}", a, optx(u8::try_from(f64w(a)))),
+            "to_u16" => format!("f64.to_u16 {:x} => {}", a, optx(u16::try_from(f64w(a)))),
+            "to_u32" => format!("f64.to_u32 {:x} => {}", a, optx(u32::try_from(f64w(a)))),
+            "to_u64" => format!("f64.to_u64 {:x} => {:x}", a, u64::from(f64w(a))),
+            "to_u128" => format!("f64.to_u128 {:x} => {:x}", a, u128::from(f64w(a))),
+            "sf_as_int" => format!("f64.sf_as_int {:x} => {:x}", a, <f64::BaseElement as StarkField>::as_int(&f64w(a))),
+            "conjugate" => format!("f64.conjugate {:x} => {:x}", a, f64w(a).conjugate().inner()),
+            "add_assign" => format!("f64.add_assign {:x} {:x} => {}", a, c, show(catch(|| { let mut x = f64w(a); x += f64w(c); x.inner() }))),
+            "sub_assign" => format!("f64.sub_assign {:x} {:x} => {}", a, c, show(catch(|| { let mut x = f64w(a); x -= f64w(c); x.inner() }))),
+            "mul_assign" => format!("f64.mul_assign {:x} {:x} => {}", a, c, show(catch(|| { let mut x = f64w(a); x *= f64w(c); x.inner() }))),
+            "div_assign" => format!("f64.div_assign {:x} {:x} => {}", a, c, show(catch(|| { let mut x = f64w(a); x /= f64w(c); x.inner() }))),
+            "base_element" => { let k = if r.chance(1, 2) { 0 } else { 1 + r.below(3) as usize }; format!("f64.base_element {:x} {:x} => {}", a, k, show(catch(|| f64w(a).base_element(k).inner()))) }
+            "try_from_slice" => { let bs = gen_slice(r, 8, M64 as u128); format!("f64.try_from_slice {} => {}", hex_bytes(&bs), optx(<f64::BaseElement as TryFrom<&[u8]>>::try_from(&bs).map(|e| e.inner()))) }
+            "as_bytes" => format!("f64.as_bytes {:x} => {}", a, hex_bytes(f64w(a).as_bytes())),
+            "eab" => { let es: Vec<u64> = (0..r.below(4)).map(|_| w(r)).collect(); let fs: Vec<f64::BaseElement> = es.iter().map(|x| f64w(*x)).collect();
+                format!("f64.eab {} => {}", words(&es), hex_bytes(f64::BaseElement::elements_as_bytes(&fs))) }
+            "bae" => { let (off, bs) = gen_bae(r, 8); format!("f64.bae {:x} {} => {}", off, hex_bytes(&bs),
+                bae::<u64, f64::BaseElement, u64>(off, &bs, |e| e.inner(), |s| unsafe { f64::BaseElement::bytes_as_elements(s) }.ok().map(|x| x.to_vec()))) }
+            _ => unreachable!(),
+        };
+        out.push(line);
+        // ---- f62 (lazy words in [0, 2M))
+        let op = ops62[i % ops62.len()];
+        let w = |r: &mut Rng| gen_u64(r, &b62) % (2 * M62);
+        let (a, c) = (w(r), w(r));
+        let line = match op {
+            "from_u8" => { let v = small(r, 8) as u8; format!("f62.from_u8 {:x} => {:x}", v, f62raw(f62::BaseElement::from(v))) }
+            "from_u16" => { let v = small(r, 16) as u16; format!("f62.from_u16 {:x} => {:x}", v, f62raw(f62::BaseElement::from(v))) }
+            "from_u32" => { let v = small(r, 32) as u32; format!("f62.from_u32 {:x} => {:x}", v, f62raw(f62::BaseElement::from(v))) }
+            "to_u64" => format!("f62.to_u64 {:x} => {:x}", a, u64::from(f62w(a))),
+            "to_u128" => format!("f62.to_u128 {:x} => {:x}", a, u128::from(f62w(a))),
+            "try_from_bytes" => { let v = gen_u64(r, &b62); format!("f62.try_from_bytes {} => {}", hex_bytes(&v.to_le_bytes()), optx(f62::BaseElement::try_from(v.to_le_bytes()).map(f62raw))) }
+            "conjugate" => format!("f62.conjugate {:x} => {:x}", a, f62raw(f62w(a).conjugate())),
+            "add_assign" => format!("f62.add_assign {:x} {:x} => {}", a, c, show(catch(|| { let mut x = f62w(a); x += f62w(c); f62raw(x) }))),
+            "sub_assign" => format!("f62.sub_assign {:x} {:x} => {}", a, c, show(catch(|| { let mut x = f62w(a); x -= f62w(c); f62raw(x) }))),
+            "mul_assign" => format!("f62.mul_assign {:x} {:x} => {}", a, c, show(catch(|| { let mut x = f62w(a); x *= f62w(c); f62raw(x) }))),
+            "div_assign" => format!("f62.div_assign {:x} {:x} => {}", a, c, show(catch(|| { let mut x = f62w(a); x /= f62w(c); f62raw(x) }))),
+            "base_element" => { let k = if r.chance(1, 2) { 0 } else { 1 + r.below(3) as usize }; format!("f62.base_element {:x} {:x} => {}", a, k, show(catch(|| f62raw(f62w(a).base_element(k))))) }
+            "try_from_slice" => { let bs = gen_slice(r, 8, M62 as u128); format!("f62.try_from_slice {} => {}", hex_bytes(&bs), optx(<f62::BaseElement as TryFrom<&[u8]>>::try_from(&bs).map(f62raw))) }
+            "as_bytes" => format!("f62.as_bytes {:x} => {}", a, hex_bytes(f62w(a).as_bytes())),
+            "eab" => { let es: Vec<u64> = (0..r.below(4)).map(|_| w(r)).collect(); let fs: Vec<f62::BaseElement> = es.iter().map(|x| f62w(*x)).collect();
+                format!("f62.eab {} => {}", words(&es), hex_bytes(f62::BaseElement::elements_as_bytes(&fs))) }
+            "bae" => { let (off, bs) = gen_bae(r, 8); format!("f62.bae {:x} {} => {}", off, hex_bytes(&bs),
+                bae::<u64, f62::BaseElement, u64>(off, &bs, |e| f62raw(*e), |s| unsafe { f62::BaseElement::bytes_as_elements(s) }.ok().map(|x| x.to_vec()))) }
+            _ => unreachable!(),
+        };
+        out.push(line);
+        // ---- f128 (canonical words)
+        let op = ops128[i % ops128.len()];
+        let w = |r: &mut Rng| gen_u128(r) % M128;
+        let (a, c) = (w(r), w(r));
+        let line = match op {
+            "from_u8" => { let v = small(r, 8) as u8; format!("f128.from_u8 {:x} => {:x}", v, f128raw(f128::BaseElement::from(v))) }
+            "from_u16" => { let v = small(r, 16) as u16; format!("f128.from_u16 {:x} => {:x}", v, f128raw(f128::BaseElement::from(v))) }
+            "from_u32" => { let v = small(r, 32) as u32; format!("f128.from_u32 {:x} => {:x}", v, f128raw(f128::BaseElement::from(v))) }
+            "from_u64" => { let v = small(r, 64); format!("f128.from_u64 {:x} => {:x}", v, f128raw(f128::BaseElement::from(v))) }
+            "conjugate" => format!("f128.conjugate {:x} => {:x}", a, f128raw(f128w(a).conjugate())),
+            "add_assign" => format!("f128.add_assign {:x} {:x} => {}", a, c, show(catch(|| { let mut x = f128w(a); x += f128w(c); f128raw(x) }))),
+            "sub_assign" => format!("f128.sub_assign {:x} {:x} => {}", a, c, show(catch(|| { let mut x = f128w(a); x -= f128w(c); f128raw(x) }))),
+            "mul_assign" => format!("f128.mul_assign {:x} {:x} => {}", a, c, show(catch(|| { let mut x = f128w(a); x *= f128w(c); f128raw(x) }))),
+            "div_assign" => format!("f128.div_assign {:x} {:x} => {}", a, c, show(catch(|| { let mut x = f128w(a); x /= f128w(c); f128raw(x) }))),
+            "base_element" => { let k = if r.chance(1, 2) { 0 } else { 1 + r.below(3) as usize }; format!("f128.base_element {:x} {:x} => {}", a, k, show(catch(|| f128raw(f128w(a).base_element(k))))) }
+            "try_from_slice" => { let bs = gen_slice(r, 16, M128); format!("f128.try_from_slice {} => {}", hex_bytes(&bs), optx(<f128::BaseElement as TryFrom<&[u8]>>::try_from(&bs).map(f128raw))) }
+            "as_bytes" => format!("f128.as_bytes {:x} => {}", a, hex_bytes(f128w(a).as_bytes())),
+            "eab" => { let es: Vec<u128> = (0..r.below(4)).map(|_| w(r)).collect(); let fs: Vec<f128::BaseElement> = es.iter().map(|x| f128w(*x)).collect();
+                format!("f128.eab {} => {}", words(&es), hex_bytes(f128::BaseElement::elements_as_bytes(&fs))) }
+            "bae" => { let (off, bs) = gen_bae(r, 16); format!("f128.bae {:x} {} => {}", off, hex_bytes(&bs),
+                bae::<u128, f128::BaseElement, u128>(off, &bs, |e| f128raw(*e), |s| unsafe { f128::BaseElement::bytes_as_elements(s) }.ok().map(|x| x.to_vec()))) }
+            _ => unreachable!(),
+        };
+        out.push(line);
+    }
+}
+
 // ---------------------------------------------------------------- falsifier (property-level oracle)
 struct Fail { field: &'static str, what: String, input: String, expected: String, actual: String }
 
@@ -225,21 +367,59 @@ trait RefField: StarkField<PositiveInteger = Self::Int> {
     fn from_u128(v: u128) -> Self;
     fn to_u128(&self) -> u128;
     fn raw(&self) -> Vec<u8> { self.as_bytes().to_vec() }
+    /// the internal word has a single image per residue (f64: canonical Montgomery; f128: canonical); f62 is lazy
+    const ONE_WORD: bool;
+    /// conversions back to the integer types must agree with the residue: Ok(v) iff it fits, never truncated
+    fn conv_back(&self, want: u128) -> Vec<(String, String, String)>;
+}
+fn narrow<T: TryFrom<u128> + std::fmt::Debug + PartialEq, E>(name: &str, got: Result<T, E>, want: u128, out: &mut Vec<(String, String, String)>) {
+    let exp = T::try_from(want).ok();
+    let got = got.ok();
+    if got != exp { out.push((format!("{}::try_from(e)", name), format!("{:?}", exp), format!("{:?}", got))); }
 }
 impl RefField for f64::BaseElement {
     type Int = u64; const P: u128 = M64 as u128; const NAME: &'static str = "f64";
     fn from_u128(v: u128) -> Self { Self::new((v % Self::P) as u64) }
     fn to_u128(&self) -> u128 { self.as_int() as u128 }
+    const ONE_WORD: bool = true;
+    fn conv_back(&self, want: u128) -> Vec<(String, String, String)> {
+        let mut o = Vec::new();
+        narrow("u8", u8::try_from(*self), want, &mut o);
+        narrow("u16", u16::try_from(*self), want, &mut o);
+        narrow("u32", u32::try_from(*self), want, &mut o);
+        if u64::from(*self) as u128 != want { o.push(("u64::from(e)".into(), format!("{:x}", want), format!("{:x}", u64::from(*self)))); }
+        if u128::from(*self) != want { o.push(("u128::from(e)".into(), format!("{:x}", want), format!("{:x}", u128::from(*self)))); }
+        let b = bool::try_from(*self).ok();
+        let wb = match want { 0 => Some(false), 1 => Some(true), _ => None };
+        if b != wb { o.push(("bool::try_from(e)".into(), format!("{:?}", wb), format!("{:?}", b))); }
+        if <Self as StarkField>::as_int(self) as u128 != want { o.push(("StarkField::as_int".into(), format!("{:x}", want), "differs".into())); }
+        o
+    }
 }
 impl RefField for f62::BaseElement {
     type Int = u64; const P: u128 = M62 as u128; const NAME: &'static str = "f62";
     fn from_u128(v: u128) -> Self { Self::new((v % Self::P) as u64) }
     fn to_u128(&self) -> u128 { self.as_int() as u128 }
+    const ONE_WORD: bool = false;
+    fn conv_back(&self, want: u128) -> Vec<(String, String, String)> {
+        let mut o = Vec::new();
+        if u64::from(*self) as u128 != want { o.push(("u64::from(e)".into(), format!("{:x}", want), format!("{:x}", u64::from(*self)))); }
+        if u128::from(*self) != want { o.push(("u128::from(e)".into(), format!("{:x}", want), format!("{:x}", u128::from(*self)))); }
+        let w = f62raw(*self);
+        if w >= 2 * M62 { o.push(("internal word below 2M".into(), "< 2M".into(), format!("{:x}", w))); }
+        o
+    }
 }
 impl RefField for f128::BaseElement {
     type Int = u128; const P: u128 = M128; const NAME: &'static str = "f128";
     fn from_u128(v: u128) -> Self { Self::new(v % Self::P) }
     fn to_u128(&self) -> u128 { self.as_int() }
+    const ONE_WORD: bool = true;
+    fn conv_back(&self, want: u128) -> Vec<(String, String, String)> {
+        let mut o = Vec::new();
+        if f128raw(*self) != want { o.push(("internal word is the canonical residue".into(), format!("{:x}", want), format!("{:x}", f128raw(*self)))); }
+        o
+    }
 }
 
 fn residues(p: u128, r: &mut Rng) -> u128 {
@@ -263,8 +443,8 @@ fn reach<F: RefField>(r: &mut Rng, trace: &mut String, prog: &Progress) -> (F, u
     for _ in 0..r.below(4) {
         let w = residues(p, r);
         let o = F::from_u128(w);
-        let k = r.below(9);
-        prog.step(|| format!("{} {} then op#{} (6=inv,7=div) with {:x}", F::NAME, trace, k, w));
+        let k = r.below(13);
+        prog.step(|| format!("{} {} then op#{} (6=inv,7=div,12=div_assign) with {:x}", F::NAME, trace, k, w));
         match k {
             0 => { e = e + o; v = addmod(v, w, p); trace.push_str(&format!(".add({:x})", w)); }
             1 => { e = e - o; v = submod(v, w, p); trace.push_str(&format!(".sub({:x})", w)); }
@@ -274,7 +454,11 @@ fn reach<F: RefField>(r: &mut Rng, trace: &mut String, prog: &Progress) -> (F, u
             5 => { e = -e; v = submod(0, v, p); trace.push_str(".neg()"); }
             6 => { e = e.inv(); v = invmod(v, p); trace.push_str(".inv()"); }
             7 => { e = e / o; v = mulmod(v, invmod(w, p), p); trace.push_str(&format!(".div({:x})", w)); }
-            _ => { e = e.cube(); v = mulmod(mulmod(v, v, p), v, p); trace.push_str(".cube()"); }
+            8 => { e = e.cube(); v = mulmod(mulmod(v, v, p), v, p); trace.push_str(".cube()"); }
+            9 => { e += o; v = addmod(v, w, p); trace.push_str(&format!(".add_assign({:x})", w)); }
+            10 => { e -= o; v = submod(v, w, p); trace.push_str(&format!(".sub_assign({:x})", w)); }
+            11 => { e *= o; v = mulmod(v, w, p); trace.push_str(&format!(".mul_assign({:x})", w)); }
+            _ => { e /= o; v = mulmod(v, invmod(w, p), p); trace.push_str(&format!(".div_assign({:x})", w)); }
         }
     }
     (e, v)
@@ -298,6 +482,44 @@ fn check_elem<F: RefField>(e: F, want: u128, how: &str, fails: &mut Vec<Fail>) {
         Ok(d) if d == e && d.to_u128() == want => {}
         _ => fails.push(Fail { field: F::NAME, what: "to_bytes/read_from_bytes round trip".into(), input: how.into(), expected: format!("{:x}", want), actual: "mismatch".into() }),
     }
+    // conversions back to integers agree with the residue (Err exactly when the value does not fit)
+    for (what, exp, act) in e.conv_back(want) {
+        fails.push(Fail { field: F::NAME, what: format!("conversion to integer: {}", what), input: how.into(), expected: exp, actual: act });
+    }
+    if e.conjugate() != e { fails.push(Fail { field: F::NAME, what: "conjugate of a base element".into(), input: how.into(), expected: "e".into(), actual: "differs".into() }); }
+    // equal residues hash equally
+    if Blake3_256::<F>::hash_elements(&[e]) != Blake3_256::<F>::hash_elements(&[fresh]) {
+        fails.push(Fail { field: F::NAME, what: "hash_elements differs for same residue".into(), input: how.into(), expected: "equal digests".into(), actual: format!("raw {} vs {}", hex_bytes(&e.raw()), hex_bytes(&fresh.raw())) });
+    }
+    // zero-copy views: as_bytes and elements_as_bytes show the same internal word; it reinterprets back; where the
+    // representation is canonical the internal word itself is determined by the residue
+    let pair = [e, fresh];
+    let view = F::elements_as_bytes(&pair);
+    let nb = F::ELEMENT_BYTES;
+    if view.len() != 2 * nb || &view[..nb] != e.as_bytes() || &view[nb..] != fresh.as_bytes() {
+        fails.push(Fail { field: F::NAME, what: "elements_as_bytes is not the concatenation of as_bytes".into(), input: how.into(), expected: hex_bytes(e.as_bytes()), actual: hex_bytes(view) });
+    }
+    match unsafe { F::bytes_as_elements(view) } {
+        Ok(back) if back.len() == 2 && back[0] == e && back[1] == fresh && back[0].as_bytes() == e.as_bytes() => {}
+        _ => fails.push(Fail { field: F::NAME, what: "bytes_as_elements(elements_as_bytes(..)) round trip".into(), input: how.into(), expected: "same elements".into(), actual: "mismatch".into() }),
+    }
+    if F::ONE_WORD && e.as_bytes() != fresh.as_bytes() {
+        fails.push(Fail { field: F::NAME, what: "non-canonical internal word reached through the public API".into(), input: how.into(), expected: hex_bytes(fresh.as_bytes()), actual: hex_bytes(e.as_bytes()) });
+    }
+}
+
+/// integer -> element conversions on the boundary values of each source type
+fn conv_small<F: RefField + From<u8> + From<u16> + From<u32>>(fails: &mut Vec<Fail>) -> usize {
+    let p = F::P;
+    let mut n = 0;
+    let mut chk = |what: &str, x: u128, e: F| {
+        n += 1;
+        if e.to_u128() != x % p || e != F::from_u128(x) { fails.push(Fail { field: F::NAME, what: format!("{} does not denote x mod p", what), input: format!("{:x}", x), expected: format!("{:x}", x % p), actual: format!("{:x}", e.to_u128()) }); }
+    };
+    for x in [0u8, 1, 2, 127, 128, 254, 255] { chk("From<u8>", x as u128, F::from(x)); }
+    for x in [0u16, 1, 255, 256, 32767, 32768, 65534, 65535] { chk("From<u16>", x as u128, F::from(x)); }
+    for x in [0u32, 1, 65535, 65536, 1 << 31, u32::MAX - 1, u32::MAX] { chk("From<u32>", x as u128, F::from(x)); }
+    n
 }
 
 fn falsify_field<F: RefField>(r: &mut Rng, n: usize, fails: &mut Vec<Fail>, prog: &Progress, extra: &dyn Fn(&mut Rng, F, u128, &str, &mut Vec<Fail>)) -> usize {
@@ -442,6 +664,7 @@ fn main() {
             corr_f64(&mut r, n, &mut out);
             corr_f62(&mut r, n, &mut out);
             corr_f128(&mut r, n / 2, &mut out);
+            corr_conv(&mut r, n / 3, &mut out);
             for l in out { println!("{}", l); }
         }
         "falsify" => {
@@ -468,6 +691,32 @@ fn main() {
                 });
                 evals += falsify_field::<f62::BaseElement>(&mut r, n, &mut fails, &prog, &|_, _, _, _, _| {});
                 evals += falsify_field::<f128::BaseElement>(&mut r, n / 4 + 1, &mut fails, &prog, &|_, _, _, _, _| {});
+                evals += conv_small::<f64::BaseElement>(&mut fails);
+                evals += conv_small::<f62::BaseElement>(&mut fails);
+                evals += conv_small::<f128::BaseElement>(&mut fails);
+                for (b, v) in [(false, 0u128), (true, 1)] {
+                    if f64::BaseElement::from(b).to_u128() != v { fails.push(Fail { field: "f64", what: "From<bool>".into(), input: format!("{}", b), expected: format!("{}", v), actual: "differs".into() }); }
+                }
+                for x in [0usize, 1, M64 as usize - 1, M64 as usize, M64 as usize + 1, usize::MAX] {
+                    let got = f64::BaseElement::try_from(x).ok().map(|e| e.to_u128());
+                    let want = if (x as u128) < M64 as u128 { Some(x as u128) } else { None };
+                    if got != want { fails.push(Fail { field: "f64", what: "TryFrom<usize>".into(), input: format!("{:x}", x), expected: format!("{:?}", want), actual: format!("{:?}", got) }); }
+                }
+                for x in [0u64, 1, u64::MAX, M64, 1 << 63] {
+                    if f128::BaseElement::from(x).to_u128() != x as u128 { fails.push(Fail { field: "f128", what: "From<u64>".into(), input: format!("{:x}", x), expected: format!("{:x}", x), actual: "differs".into() }); }
+                }
+                // f128 has no cubic extension: is_supported() is false and the three stubs are unimplemented!()
+                {
+                    use winter_math::ExtensibleField;
+                    type E = f128::BaseElement;
+                    let one = [E::ONE; 3];
+                    let sup = <E as ExtensibleField<3>>::is_supported();
+                    let p1 = catch(|| <E as ExtensibleField<3>>::mul(one, one)).is_err();
+                    let p2 = catch(|| <E as ExtensibleField<3>>::mul_base(one, E::ONE)).is_err();
+                    let p3 = catch(|| <E as ExtensibleField<3>>::frobenius(one)).is_err();
+                    if sup || !(p1 && p2 && p3) { fails.push(Fail { field: "f128", what: "cubic extension stubs".into(), input: "ExtensibleField<3>".into(), expected: "unsupported, unimplemented".into(), actual: format!("is_supported={} panics={},{},{}", sup, p1, p2, p3) }); }
+                    evals += 4;
+                }
                 conv64::<f64::BaseElement>(&mut r, &mut fails);
                 conv64::<f62::BaseElement>(&mut r, &mut fails);
                 conv_bytes::<f64::BaseElement>(&mut r, &mut fails);
